@@ -7,7 +7,14 @@ state that the code touches are simulator objects (`random_seed` attribute; sele
 State = a heap of simulator objects + the list of instances created so far + the log of
 `run_shots` calls.  `step fixed` is the code after the repair of D10 (`with_seed` seeds a *copy*
 of the simulator) when `fixed = true` and the original code (`with_seed` writes
-`random_seed` of the shared object) when `fixed = false`.  Import-free, executable. -/
+`random_seed` of the shared object) when `fixed = false`.
+
+`guppylang/emulator/builder.py` (`EmulatorBuilder`, also a frozen dataclass) is modelled in the same
+state: builders are records by value — the only container they hold, `_custom_args`, is never
+written by the code (`with_build_arg` builds `self._custom_args | {key: value}`, the `custom_args`
+property returns a copy) and is modelled as an insertion-ordered association list.  `build(pkg, n)`
+calls `selene_sim.build(**kwargs)` (logged) and returns `EmulatorInstance(_instance=<that>, _n_qubits=n)`
+with default `_Options()` (fresh simulator object).  Import-free, executable. -/
 namespace GuppyVerif.EmuConfig
 
 inductive SimKind where
@@ -36,6 +43,9 @@ structure Inst where
   verbose : Bool
   timeout : Option Nat
   nProcesses : Nat
+  progressBar : Bool
+  /-- which `selene_sim.build` call produced `_instance` (index into the build log); `none`: given -/
+  origin : Option Nat
   deriving DecidableEq, Repr
 
 /-- the derivation methods -/
@@ -48,6 +58,7 @@ inductive Deriv where
   | nProcesses (n : Nat)
   | verbose (b : Bool)
   | timeout (t : Option Nat)
+  | progressBar (b : Bool)
   | runtime (r : Nat)
   | errorModel (e : Nat)
   | eventHook (h : Nat)
@@ -55,10 +66,53 @@ inductive Deriv where
   | statevector | coinflip | stabilizer
   deriving DecidableEq, Repr
 
+/-- `EmulatorBuilder` (fields without a `with_*` method are constants and omitted) -/
+structure Builder where
+  name : Option Nat
+  buildDir : Option Nat
+  verbose : Bool
+  /-- `_custom_args`: `none` = `None`, else the dict in insertion order -/
+  args : Option (List (Nat × Nat))
+  deriving DecidableEq, Repr
+
+inductive BDeriv where
+  | name (v : Option Nat)
+  | buildDir (v : Option Nat)
+  | verbose (b : Bool)
+  | buildArg (k v : Nat)
+  deriving DecidableEq, Repr
+
+/-- `d | {k: v}` on an insertion-ordered dict -/
+def dictSet (k v : Nat) : List (Nat × Nat) → List (Nat × Nat)
+  | [] => [(k, v)]
+  | (k', v') :: r => if k' = k then (k', v) :: r else (k', v') :: dictSet k v r
+
+def bderive (b : Builder) : BDeriv → Builder
+  | .name v => { b with name := v }
+  | .buildDir v => { b with buildDir := v }
+  | .verbose x => { b with verbose := x }
+  | .buildArg k v =>
+    match b.args with
+    | none => { b with args := some [(k, v)] }
+    | some d => { b with args := some (dictSet k v d) }
+
+/-- keyword arguments of the `selene_sim.build` call (`**self._custom_args or {}`) -/
+structure BuildArgs where
+  name : Option Nat
+  buildDir : Option Nat
+  verbose : Bool
+  custom : List (Nat × Nat)
+  deriving DecidableEq, Repr
+
+def buildArgs (b : Builder) : BuildArgs :=
+  ⟨b.name, b.buildDir, b.verbose, b.args.getD []⟩
+
 inductive Op where
   | newSim (k : SimKind) (seed : Option Nat)   -- the user constructs a simulator object
   | derive (i : Nat) (d : Deriv)               -- `insts[i].with_…(…)`, result appended
   | run (i : Nat)                              -- `insts[i].run()`
+  | bderive (i : Nat) (d : BDeriv)             -- `builders[i].with_…(…)`, result appended
+  | build (i n : Nat)                          -- `builders[i].build(pkg, n)`, instance appended
   deriving DecidableEq, Repr
 
 /-- what `run()` hands to `SeleneInstance.run_shots` (object arguments by observable content) -/
@@ -76,6 +130,7 @@ structure RunArgs where
   shotOffset : Nat
   shotIncrement : Nat
   nProcesses : Nat
+  progressBar : Bool            -- whether the shot stream is wrapped in tqdm
   deriving DecidableEq, Repr
 
 /-- the seed selene gives the simulator: `component.random_seed` if set, else `random_seed` -/
@@ -88,6 +143,8 @@ structure State where
   heap : List Sim
   insts : List Inst
   log : List (Nat × RunArgs)
+  builders : List Builder
+  blog : List (Nat × BuildArgs)
   deriving Repr
 
 def argsOf (heap : List Sim) (c : Inst) : Option RunArgs :=
@@ -97,7 +154,13 @@ def argsOf (heap : List Sim) (c : Inst) : Option RunArgs :=
     { simKind := s.kind, simSeed := s.seed, runtime := c.runtime, errorModel := c.errorModel,
       eventHook := c.eventHook, nQubits := c.nQubits, shots := c.shots, verbose := c.verbose,
       timeout := c.timeout, seed := c.seed, shotOffset := c.shotOffset,
-      shotIncrement := c.shotIncrement, nProcesses := c.nProcesses }
+      shotIncrement := c.shotIncrement, nProcesses := c.nProcesses, progressBar := c.progressBar }
+
+/-- `_Options()` defaults; the simulator is the fresh object at heap index `sim` -/
+def defaultInst (n sim : Nat) (origin : Option Nat) : Inst :=
+  { nQubits := n, sim := sim, runtime := 0, errorModel := 0, eventHook := 0, shots := 1,
+    shotIncrement := 1, shotOffset := 0, seed := none, verbose := false, timeout := none,
+    nProcesses := 1, progressBar := false, origin := origin }
 
 /-- the arguments a `run()` of instance `i` would pass right now -/
 def view (s : State) (i : Nat) : Option RunArgs :=
@@ -120,6 +183,7 @@ def derive (fixed : Bool) (heap : List Sim) (c : Inst) : Deriv → Option (List 
   | .nProcesses n => some (heap, { c with nProcesses := n })
   | .verbose b => some (heap, { c with verbose := b })
   | .timeout t => some (heap, { c with timeout := t })
+  | .progressBar b => some (heap, { c with progressBar := b })
   | .runtime r => some (heap, { c with runtime := r })
   | .errorModel e => some (heap, { c with errorModel := e })
   | .eventHook h => some (heap, { c with eventHook := h })
@@ -141,6 +205,29 @@ def step (fixed : Bool) (s : State) : Op → Option State
     match view s i with
     | none => none
     | some a => some { s with log := s.log ++ [(i, a)] }
+  | .bderive i d =>
+    match s.builders[i]? with
+    | none => none
+    | some b => some { s with builders := s.builders ++ [bderive b d] }
+  | .build i n =>
+    match s.builders[i]? with
+    | none => none
+    | some b => some
+      { s with blog := s.blog ++ [(i, buildArgs b)], heap := s.heap ++ [⟨.quest, none⟩],
+               insts := s.insts ++ [defaultInst n s.heap.length (some s.blog.length)] }
+
+/-- what `builders[i].build(..)` would pass to `selene_sim.build` right now -/
+def bview (s : State) (i : Nat) : Option BuildArgs := (s.builders[i]?).map buildArgs
+
+/-- the `selene_sim.build` arguments that produced the `_instance` of instance `i`
+    (`some none`: the instance was handed an existing `SeleneInstance`) -/
+def originArgs (s : State) (i : Nat) : Option (Option BuildArgs) :=
+  match s.insts[i]? with
+  | none => none
+  | some c =>
+    match c.origin with
+    | none => some none
+    | some o => (s.blog[o]?).map fun e => some e.2
 
 def runOps (fixed : Bool) : State → List Op → Option State
   | s, [] => some s
@@ -149,13 +236,13 @@ def runOps (fixed : Bool) : State → List Op → Option State
     | none => none
     | some s' => runOps fixed s' ops
 
-/-- `EmulatorInstance(_instance, _n_qubits=n)` with default `_Options()`: fresh Quest object,
-    default runtime/error model/event hook are objects `0` -/
+/-- a given `EmulatorInstance(_instance, _n_qubits=n)` with default `_Options()` (fresh Quest
+    object; default runtime/error model/event hook are written `0`) and a fresh `EmulatorBuilder()` -/
 def initial (n : Nat) : State :=
   { heap := [⟨.quest, none⟩]
-    insts := [{ nQubits := n, sim := 0, runtime := 0, errorModel := 0, eventHook := 0, shots := 1,
-                shotIncrement := 1, shotOffset := 0, seed := none, verbose := false,
-                timeout := none, nProcesses := 1 }]
-    log := [] }
+    insts := [defaultInst n 0 none]
+    log := []
+    builders := [⟨none, none, false, none⟩]
+    blog := [] }
 
 end GuppyVerif.EmuConfig
